@@ -3,6 +3,7 @@ import Proofs.VecProtoLegal
 import Proofs.VecProtoWait
 import Proofs.VecProtoPrompt
 import Proofs.VecProtoGenEq
+import Proofs.WorkerErrGenEq
 
 /-!
 # C13 — the vector environment rejects misuse and survives worker faults without hanging
@@ -531,5 +532,150 @@ example : (VecProtoGen.call (sysM 2 (fun _ => true)) (parOf (reach true 2 [] [.r
 example : VecProtoGen.Parent.init = parOf (init true 2 []) := rfl
 
 end source_translation
+
+end VecProto
+
+/-!
+## The worker's error path (`_async_worker`: except / finally, `_survives_pickling`)
+
+Model: `Model/VecProto.lean`, section WorkerErr — the worker's error path as an ordered list of effects
+(`Worker.errorPath`), the multiprocessing queue with an explicit feeder buffer (`PSt`: `put` buffers, `join_thread`
+after `close` flushes, the feeder may flush by itself at any point `spont`, a process death discards the buffer), a
+kill point `k` (`Worker.killedAt spont k effs` = the process dies after `k` effects).  The parent's
+`_raise_if_errors` does one `error_queue.get()` per announced failure (`PSt.parentFinds`; `raiseIfErrors` of the
+protocol model answers `hang` exactly when the queue is shorter than the number of announced failures, A5).
+Generated: `Gen/WorkerErrGen.lean` from the source text; `Proofs/WorkerErrGenEq.lean` proves generated = model.
+-/
+namespace VecProto
+open WorkerErrGen
+
+/-- "announced ⇒ flushed" is an invariant of the repaired effect order: for EVERY kill point of the worker process
+    (before, at or after the announcement, inside the sub-environment's own `close()` included) and every feeder
+    schedule, the parent finds a report for every failure the worker announced -/
+theorem C13_worker_announced_implies_flushed (clsOk msgOk : Bool) (spont : Nat → Bool) (k : Nat) :
+    (Worker.killedAt spont k (Worker.errorPath clsOk msgOk)).parentFinds = true :=
+  errorPath_killed_parentFinds clsOk msgOk spont k
+
+/-- at or after the announcement (kill point ≥ 4: put, close, join_thread, send have run) exactly one failure is
+    announced and exactly one report has reached the parent's side of the queue, whatever the feeder did -/
+theorem C13_worker_killed_after_announcement (clsOk msgOk : Bool) (spont : Nat → Bool) (k : Nat) (hk : 4 ≤ k) :
+    (Worker.killedAt spont k (Worker.errorPath clsOk msgOk)).announced = 1 ∧
+    (Worker.killedAt spont k (Worker.errorPath clsOk msgOk)).flushed = 1 := by
+  obtain ⟨j, rfl⟩ : ∃ j, k = j + 4 := ⟨k - 4, by omega⟩
+  have nil : ∀ i k s, PSt.runK spont i k s [] = s := by intro i k s; cases k <;> rfl
+  cases h0 : spont 0 <;> cases h1 : spont 1 <;> cases h2 : spont 2 <;> cases h3 : spont 3 <;> cases h4 : spont 4 <;>
+    cases j <;>
+    simp [Worker.killedAt, PSt.die, Worker.errorPath, PSt.runK, PSt.exec, PSt.flush, nil, h0, h1, h2, h3, h4]
+
+/-- general form: ANY effect order that passes the static check `safeFrom` (run with the feeder that never flushes
+    by itself) keeps the invariant at every kill point under every feeder schedule -/
+theorem C13_worker_safe_order_invariant (effs : List WEff) (h : safeFrom {} effs = true) (spont : Nat → Bool)
+    (k : Nat) : (Worker.killedAt spont k effs).parentFinds = true :=
+  killedAt_parentFinds spont k effs h
+
+/-- witness (decided): the order as found — `put; send((None, False)); env.close()`, no flush — violates the
+    invariant for a kill right after the announcement: one failure announced, nothing to `get()`
+    (known finding C13-error-report-lost-when-killed-in-cleanup, repaired in /repo) -/
+theorem C13_worker_as_found_order_witness :
+    (Worker.killedAt (fun _ => false) 2 (Worker.errorPathAsFound true true)).parentFinds = false ∧
+    (Worker.killedAt (fun _ => false) 2 (Worker.errorPathAsFound true true)).announced = 1 :=
+  errorPathAsFound_witness
+
+/-- the as-found order does not pass the static check -/
+theorem C13_worker_as_found_order_unsafe (clsOk msgOk : Bool) :
+    safeFrom {} (Worker.errorPathAsFound clsOk msgOk) = false := by
+  cases clsOk <;> cases msgOk <;> decide
+
+/-- whatever class the sub-environment raises, the report put on the queue survives pickling by construction: a
+    class that does not is downgraded to RuntimeError (class name kept in the message), a message that does not is
+    replaced by its `str` — so the feeder never drops the item and the parent's `get()` is not left waiting for it -/
+theorem C13_worker_report_picklable (clsOk msgOk : Bool) :
+    (Worker.report clsOk msgOk).picklable clsOk msgOk = true := report_picklable clsOk msgOk
+
+/-- the downgrade is only applied when needed: a picklable exception is reported as itself (own class, own object) -/
+theorem C13_worker_report_faithful : Worker.report true true = ⟨.own, .own⟩ := rfl
+
+/-- the parent's `_raise_if_errors` of the protocol model does not hang on a queue that holds the flushed reports of
+    the announced failures -/
+theorem C13_worker_parent_get_returns (s : State) (rs : List Reply) (p : PSt) (hp : p.parentFinds = true)
+    (hq : s.errq.length = p.flushed) (hr : countFail rs = p.announced) : (raiseIfErrors s rs).2 ≠ .hang := by
+  simp only [PSt.parentFinds, decide_eq_true_eq] at hp
+  unfold raiseIfErrors
+  simp only
+  split
+  · simp
+  · rename_i hn
+    have hlt : ¬ s.errq.length < countFail rs := by omega
+    rw [if_neg hlt]
+    have hne : s.errq.take (countFail rs) ≠ [] := by
+      intro h
+      rcases List.take_eq_nil_iff.mp h with h0 | h0
+      · exact hn h0
+      · rw [h0] at hq; simp at hq; omega
+    cases hl : (s.errq.take (countFail rs)).getLast? with
+    | none => exact absurd (List.getLast?_eq_none_iff.mp hl) hne
+    | some x => simp
+
+section source_translation_worker
+
+/-- generated = model, restated: the effect order `_async_worker` performs when the sub-environment raises (handler,
+    then `finally`), read off the source text, is `Worker.errorPath` for every pickling oracle: the downgrade decision
+    on the CLASS first, then on the message; `put`, `close`, `join_thread`, `send((None, False))`, `env.close()` -/
+theorem C13_source_translation_worker_effects (pickles : Val → Bool) :
+    (async_worker_on_raise pickles true).map absEff =
+      (Worker.errorPath (pickles .excType) (pickles .excValue)).map some :=
+  gen_async_worker_on_raise_eq pickles
+
+/-- the generated `except` clause catches `KeyboardInterrupt` and `Exception`; any other exit only closes the
+    sub-environment (no announcement, so the parent never waits for a report) -/
+theorem C13_source_translation_worker_catches (pickles : Val → Bool) :
+    async_worker_catches = ["KeyboardInterrupt", "Exception"] ∧
+    (async_worker_on_raise pickles false).map absEff = [some .envClose] :=
+  ⟨gen_async_worker_catches_eq, gen_async_worker_uncaught_eq pickles⟩
+
+/-- the generated effect order passes the static check: the report is flushed before the failure is announced -/
+theorem C13_source_translation_worker_order_safe (pickles : Val → Bool) : safeFrom {} (genPath pickles) = true := by
+  rw [genPath_eq]; exact errorPath_safe _ _
+
+/-- MAIN: over the generated effect order — for every pickling oracle, every kill point of the worker process and
+    every feeder schedule, `_raise_if_errors` finds a report for every announced failure -/
+theorem C13_source_translation_worker_announced_implies_flushed (pickles : Val → Bool) (spont : Nat → Bool)
+    (k : Nat) : (Worker.killedAt spont k (genPath pickles)).parentFinds = true := by
+  rw [genPath_eq]; exact errorPath_killed_parentFinds _ _ spont k
+
+/-- over the generated effect order: killed at or after the announcement, one failure is announced and one report
+    is on the parent's side -/
+theorem C13_source_translation_worker_killed_after_announcement (pickles : Val → Bool) (spont : Nat → Bool)
+    (k : Nat) (hk : 4 ≤ k) :
+    (Worker.killedAt spont k (genPath pickles)).announced = 1 ∧
+    (Worker.killedAt spont k (genPath pickles)).flushed = 1 := by
+  rw [genPath_eq]; exact C13_worker_killed_after_announcement _ _ spont k hk
+
+/-- over the generated handler: every item put on the error queue survives pickling (given `_survives_pickling`'s
+    contract, `gen_survives_pickling_eq`), whatever the sub-environment raised -/
+theorem C13_source_translation_worker_put_picklable (pickles : Val → Bool) (item : Val)
+    (h : Eff.queuePut item ∈ async_worker_on_raise pickles true) : Val.safe pickles item = true :=
+  gen_put_picklable pickles item h
+
+/-- the generated `_survives_pickling` returns `True` exactly when the round trip returns -/
+theorem C13_source_translation_worker_survives_pickling (pickles : Val → Bool) (v : Val) :
+    survives_pickling pickles v = pickles v := gen_survives_pickling_eq pickles v
+
+/-- the report the generated handler builds is picklable in the model's sense and is the original exception when
+    that is picklable -/
+theorem C13_source_translation_worker_report (pickles : Val → Bool) :
+    ∃ r, WEff.put r ∈ genPath pickles ∧ r.picklable (pickles .excType) (pickles .excValue) = true ∧
+      (pickles .excType = true → pickles .excValue = true → r = ⟨.own, .own⟩) := by
+  refine ⟨Worker.report (pickles .excType) (pickles .excValue), ?_, report_picklable _ _, ?_⟩
+  · rw [genPath_eq]; simp [Worker.errorPath]
+  · intro h1 h2; rw [h1, h2]; rfl
+
+/-! non-vacuity: the generated path can be run; an unpicklable class is downgraded -/
+example : (genPath (fun _ => true)) = [.put ⟨.own, .own⟩, .qclose, .qjoin, .announce, .envClose] := by decide
+example : (genPath (fun _ => false)).head? = some (.put ⟨.runtimeError, .nameColonOwn⟩) := by decide
+example : (Worker.killedAt (fun _ => false) 4 (genPath (fun _ => true))) =
+    { buffered := 0, flushed := 1, announced := 1, qclosed := true, envClosed := false } := by decide
+
+end source_translation_worker
 
 end VecProto
